@@ -553,7 +553,9 @@ def run(repo, tier, out, props, resources):
         if prefix == "C35":
             tag = "@" + case["features"]
 
-        def do(c_K=K):
+        # the PIT form of the aggregated statement (moves joined with accounts, grouped twice) does not finish at K=3
+        # within the per-query timeout: it keeps the K=2 tables in the thorough tier
+        def do(c_K=(2 if case["resource"] == "aggregated" and case["pit"] else K)):
             check_case(h, case["resource"], case, ast, rec, crec if case["resource"] != "aggregated" else None, c_K, case["features"], prefix, tag)
         if case["alone"]:
             # alone in its bucket: every row belongs to this ledger (see reads.py); patch make_ctx through a flag
